@@ -24,6 +24,10 @@ EXTRA = {
     "C04": (("gen_tables_step.py",), ()),
     "C08": (("gen_tables_step.py",), ()),
     "C09": (("gen_tables_step.py",), ()),
-    "C10": (("gen_tables_step.py",), ()),
+    # C10 also: the tonal classes over parameter streams (tonal.py -> Generated/TablesSteptonal.v, Pat/StepTonalSrc.v,
+    # Props/C10StreamsSrc.v), whose method calls on Key / Scale objects run the bodies of Generated/TablesTonal.v
+    "C10": (("gen_tables_step.py", "gen_tables_tonal.py", "gen_tables_steptonal.py"), ()),
     "C12": (("gen_tables_step.py",), ()),
+    # the stochastic classes: chance.py __next__ bodies -> Generated/TablesStepchance.v, Pat/ChanceSrc.v, Props/C11Src.v
+    "C11": (("gen_tables_stepchance.py",), ()),
 }
